@@ -104,6 +104,8 @@ def observe(h, handles=None, box=BOX):
         n = Node(i)
         d = h[n]
         o["parent"][i] = d.parent.idx if d.parent is not None else None
+        if d.parent is not None and type(d.parent) is not Node:
+            o["anomalies"].append(("parent", f"a Node as the parent of node {i}", type(d.parent).__name__))
         o["children"][i] = [c.idx for c in h.children(n)]
         o["op"][i] = getattr(d.op, "op_name", None) or type(d.op).__name__
         o["nin"][i] = h.num_in_ports(n)
